@@ -106,6 +106,11 @@ def alphabet(kind):
     ops += ["bad:" + p for p in observe.settable_properties(cls) if p not in ("center", "centroid")]
     ops += [m for m in METHOD_OPS if hasattr(cls, m)]
     ops += READ_OPS
+    if kind in ("ConvexSpheropolyhedron", "ConvexSpheropolygon"):
+        # the core polytope is publicly reachable (.polyhedron / .polygon) and mutable
+        ops += ["sub:centroid", "sub:volume" if kind == "ConvexSpheropolyhedron" else "sub:area"]
+        if kind == "ConvexSpheropolyhedron":
+            ops.append("sub:diagonalize_inertia")
     if hasattr(cls, "get_dihedral"):
         ops.append("fail:get_dihedral")
     return ops
@@ -163,6 +168,25 @@ def step(rec, obj, op, arg, sig, state):
         elif hasattr(type(obj), name):
             call(getattr, obj, name)
         return True, False
+    if op.startswith("sub:"):
+        core = obj.polyhedron if isinstance(obj, S.ConvexSpheropolyhedron) else obj.polygon
+        if name == "centroid":
+            target = np.array(CENTRES[arg % len(CENTRES)]) * (0.3 * state["size0"])
+            if isinstance(obj, S.ConvexSpheropolygon):
+                target = target * [1.0, 1.0, 0.0] + [0.0, 0.0, float(np.asarray(core.vertices)[0, 2])]
+            r = call(setattr, core, "centroid", target)
+        elif name == "diagonalize_inertia":
+            r = call(core.diagonalize_inertia)
+        else:
+            cur = float(getattr(core, name))
+            m = MULT[arg % len(MULT)]
+            if not (1e-2 < state["scale"] * m < 1e2):
+                m = 1.0 / m
+            state["scale"] *= m
+            r = call(setattr, core, name, cur * m)
+        if isinstance(r, Raised):
+            rec.fail("valid_op_raised", dict(sig, op=op, type=r.type), msg=r.msg)
+        return True, True
     if op == "fail:get_dihedral":
         nb = obj.neighbors
         non = [j for j in range(len(nb)) if j != 0 and j not in set(map(int, nb[0]))]
@@ -284,6 +308,8 @@ def _enum_cases(tier):
         ops = alphabet(kind)
         words = [[(o, 0)] for o in ops]
         muts = [o for o in ops if not o.startswith(("read:", "bad:", "fail:"))]
+        if kind == "ConvexSpheropolyhedron":  # populate is_inside-related caches before moving the core, then look again
+            words += [[("read:is_inside", 0), (m_, 1), ("read:is_inside", 2)] for m_ in muts]
         for a in ops:
             for b in ops:
                 if a.startswith(("read:", "bad:", "fail:")) and b.startswith(("read:", "bad:", "fail:")):
